@@ -39,10 +39,10 @@ class StripCommentsFilter:
             if token.ttype in sql_hints:
                 is_sql_hint = True
             elif isinstance(token, sql.Comment):
-                comment_tokens = token.tokens
-                if len(comment_tokens) > 0:
-                    if comment_tokens[0].ttype in sql_hints:
-                        is_sql_hint = True
+                # ordinary comments inside the group have been removed
+                # already when the group itself was processed
+                if any(t.ttype in sql_hints for t in token.tokens):
+                    is_sql_hint = True
 
             if is_sql_hint:
                 # using current index as start index to search next token for
